@@ -319,10 +319,11 @@ pub fn run_prop(e: &Engine) {
     e.assume("'process stop' is modelled by dropping the sync future at a storage call (the transaction is abandoned uncommitted); real kills are covered by C06");
     e.assume("no undo on the faulted replica between the fault and the retry (an accepted version cannot be withdrawn, by design)");
     let rule = "scenario = generated prior history leaving replica X with versions to pull and operations to push (1 in 6 above the batching threshold, some on SQLite with reopen); for EACH scenario every storage-call index x {error, stop} and every server-request index x {error before effect, lost reply} is injected, plus generated sequences of 2-3 consecutive faults; evaluations count scenario x fault point runs; non-trivial = the fault fell after the server accepted a version of this sync and before the local commit";
+    e.set_shrink_iters(300);
     e.campaign(
         "fault-points",
         rule,
-        e.tier.pick(300, 8000),
+        e.tier.pick(120, 6000),
         || strategy(1),
         render,
         check_scenario,
